@@ -251,3 +251,52 @@ def equal_widths(fn, c):
     ws = [array_width(fn, a) for a in c.args]
     known = [w for w in ws if w is not None]
     return (len(known) < 2 or known[0] == known[1]), ws
+
+
+ROLE_SECRET = ("secret", "_sk", "sk_", "privkey", "private")
+ROLE_PUBLIC = ("public", "_pk", "pk_", "pubkey")
+
+
+def role_of_name(name):
+    n = name.lower()
+    if n in ("sk", "esk") or any(t in n for t in ROLE_SECRET) or n.endswith("sk"):
+        return "secret"
+    if n in ("pk", "epk", "rpk") or any(t in n for t in ROLE_PUBLIC) or n.endswith("pk"):
+        return "public"
+    return None
+
+
+def role_consistency(rep, prog, tag=""):
+    """Key-role consistency across crate-internal calls: a parameter the caller names as a secret key is
+    never passed in the position the callee names as a public key, and vice versa.  Both are 32-byte
+    arrays (or the same generic ByteArray<32>), so the type checker cannot tell them apart; X25519 of the
+    swapped pair is a different value, so a swap always changes the derived key."""
+    n = 0
+    for f in prog.fns:
+        if f.kind == "closure":
+            continue
+        roles = {p: role_of_name(param_name(f, p)) for p in range(1, f.argc + 1)}
+        if not any(roles.values()):
+            continue
+        for c in f.calls():
+            if f.blocks[c.bb]["cleanup"] or "r_key" not in c.f or not c.f.get("r_local"):
+                continue
+            g = prog.by_key.get(c.f["r_key"])
+            if g is None or g.kind == "closure":
+                continue
+            for i, a in enumerate(c.args):
+                if i + 1 > g.argc:
+                    break
+                ls = list(operand_locals(a))
+                if not ls:
+                    continue
+                root = view_info(f, ls[0])[0]
+                r1 = roles.get(root)
+                r2 = role_of_name(param_name(g, i + 1))
+                if r1 and r2:
+                    n += 1
+                    rep.ob("ROLE", "%s -> %s|arg %d%s" % (f.path, g.path.split("::")[-1], i, tag), r1 == r2,
+                           "caller's `%s` (%s key) is passed as the callee's `%s` (%s key)" % (
+                               param_name(f, root), r1, param_name(g, i + 1), r2), loc=c.loc(),
+                           key="ROLE|%s|%s|%d%s" % (f.key, g.key, i, tag))
+    return n
